@@ -205,6 +205,10 @@ func (g *verifGen) list(rem int, depth int, obj bool) []*verifNode {
 // verifGenDoc builds a single-root tape of exactly T words (T >= 4) and its abstract document.
 func verifGenDoc(cfg verifGenCfg, T int) (*ParsedJson, *verifNode) {
 	g := &verifGen{cfg: cfg}
+	if !cfg.inMsg {
+		// copied-strings mode: nothing may depend on the input buffer, so its contents are arbitrary
+		g.msg = nondetBytes("stale.message", 2)
+	}
 	g.emit(uint64('r')<<56 | uint64(T))
 	var opts []verifOpt
 	if cfg.arrays {
